@@ -228,6 +228,10 @@ func genMapUnit(x g, cfg Cfg) *Unit {
 		default:
 			v := genVal(x, col)
 			m[cfg.key(col)] = v.Go()
+			if x.pct(15) {
+				m[cfg.key(col)] = valuerFor(v)
+				u.Feats["value:valuer-slice"] = true
+			}
 			node = Atom(col, OpEq, v)
 		}
 		u.Members = append(u.Members, node)
@@ -339,6 +343,35 @@ func genClauseUnit(x g, cfg Cfg) *Unit {
 	return u
 }
 
+// genColValue: Where("col", value).
+func genColValue(x g, cfg Cfg) *Unit {
+	col := DataCols[x.n(len(DataCols))]
+	u := &Unit{Form: FColValue, Query: cfg.key(col), Feats: featsOf()}
+	var arg interface{}
+	switch c := x.n(10); {
+	case c < 1 && Nullable(col):
+		u.Tree = IsNull(col)
+		u.Feats["colvalue:nil"] = true
+	case c < 4:
+		vs := genList(x, col, cfg)
+		arg = goSlice(x, vs, IsText(col))
+		u.Tree = In(col, vs...)
+		u.Feats["colvalue:slice"] = true
+	case c < 6:
+		v := genVal(x, col)
+		arg = valuerFor(v)
+		u.Tree = Atom(col, OpEq, v)
+		u.Feats["value:valuer-slice"] = true
+	default:
+		v := genVal(x, col)
+		arg = v.Go()
+		u.Tree = Atom(col, OpEq, v)
+	}
+	u.Args = []interface{}{arg}
+	u.Desc = goString(u.Query) + ", " + goString(arg)
+	return u
+}
+
 func genPKSlice(x g, cfg Cfg) *Unit {
 	k := 1 + x.n(3)
 	ids := make([]int, k)
@@ -357,6 +390,8 @@ func genUnit(x g, cfg Cfg, level int) *Unit {
 	for {
 		k := x.n(100)
 		switch {
+		case k < 5:
+			return genColValue(x, cfg)
 		case k < 24:
 			return genRawUnit(x, cfg, ModeQ)
 		case k < 32:
